@@ -147,6 +147,7 @@ def run(prop, tier, seed):
         storm_plan = dict(calls=[], storm=dict(workers=32, generates=400 if tier == "quick" else 2000, msgs=light[:400]))
         storm = None
         hangs = []
+        deaths = []
         if not verdict.violations:       # a daemon that a single message kills needs no concurrent phase
             for target_name, dirk in (("inprocess", None), ("binary", build_dirk())):
                 for attempt in range(3):
@@ -164,9 +165,23 @@ def run(prop, tier, seed):
                         continue
                     if harness_panic(err_s, bool(dirk)):
                         raise Inconclusive("the harness itself panicked in the concurrent phase (%s): %s" % (target_name, err_s[:600]))
+                    if not dirk and ("fatal error:" in err_s or "panic:" in err_s):
+                        # the in-process daemon shares the driver's process: a panic outside the request handlers' recovery, or a fatal
+                        # runtime error (concurrent map access), of the SERVED code kills both; its stack shows the repository's frames
+                        what = [l for l in err_s.splitlines() if l.startswith("panic:") or l.startswith("fatal error:")][:1]
+                        frames = [l.strip() for l in err_s.splitlines() if "attestantio/dirk/" in l and "verifharness" not in l][:3]
+                        deaths.append(dict(served_by=target_name, what=what, frames=frames))
+                        if len(deaths) >= 2:
+                            break
+                        continue
                     raise Inconclusive("concurrent phase (%s): apidrv exited %s: %s" % (target_name, rc_s, err_s[-300:]))
-                if len(hangs) >= 2:
+                if len(hangs) >= 2 or len(deaths) >= 2:
                     break
+        if len(deaths) >= 2:
+            verdict.violation("crash:concurrent-load", "the daemon DIED under concurrent client load (listings with new account expressions, account creation, signing requests "
+                              "addressing the created accounts); seen again on a fresh server: %s" % deaths[0], dict(storm=storm_plan["storm"], observations=deaths))
+        elif deaths and not hangs:
+            raise Inconclusive("the daemon died once under concurrent load but not on the following attempts: %s" % deaths[0])
         if len(hangs) >= 2:
             verdict.violation("hang:concurrent-load", "the daemon stopped answering under concurrent client load (account creation next to signing requests that "
                               "address the created accounts); reproduced on a fresh server: %s" % hangs[0], dict(storm=storm_plan["storm"], observations=hangs))
